@@ -9,6 +9,7 @@ import Driver.C18
 import Driver.C08
 import Driver.C09
 import Driver.C09G
+import Driver.C15W
 import Driver.C10
 import Driver.C05
 import Driver.C07
@@ -50,6 +51,7 @@ def stepLine (st : St) (line : String) : St × String :=
   | "C09G" :: rest => (st, Driver.C09G.step rest)
   | "C09S" :: rest => (st, Driver.C09G.stepSky rest)
   | "C01A" :: rest => (st, Driver.C09G.stepOutside rest)
+  | "C15W" :: rest => (st, Driver.C15W.stepWalk rest)
   | "C08" :: rest => (st, Driver.C08.step rest)
   | "C18" :: rest => let (s', o) := Driver.C18.step st.c18 rest; ({ st with c18 := s' }, o)
   | "C16" :: rest => let (s', o) := Driver.C16.step st.c16 rest; ({ st with c16 := s' }, o)
